@@ -1,5 +1,5 @@
 """What is claimed per property (feeds MANIFEST.json via tools/mkmanifest.py)."""
-HOOK_COMMITS = ["56a64ef", "eb21cc7"]
+HOOK_COMMITS = ["56a64ef", "eb21cc7", "7f35f13"]
 ENGINES = [
     {"name": "kreal", "path": "/verif/engines/kreal",
      "serves_properties": ["C01", "C02", "C05", "C06", "C07", "C09", "C10", "C12", "C13", "C14", "C15", "C16", "C17", "C19"],
@@ -12,8 +12,8 @@ BMC = "Holds for ALL inputs inside the stated bounds (SAT verdict over the compi
 TRUST = "Trusted: Kani 0.68/CBMC 6.11/CaDiCaL, the reference models in engines/kreal/src/oracle.rs and the per-harness oracles; force_bits selects arch/generic_* (the x86_64 carry intrinsics are outside). "
 CLAIMS = {
     "C01": {
-        "text": BMC + "add/sub word kernels fully symbolic on 4 words (64- and 32-bit words); UBig/IBig + and - through the real operator layer for every operand length pair 0..3 words (thorough 0..4), every sign pair and ownership form, mixed UBig/IBig forms; multiplication kernels full width where the oracle shares elementary products (n x 1, 2x2; thorough 3x2), schoolbook/Karatsuba/sqr/mul_dword on structured words (all-ones / sparse / top-bit placements of a symbolic payload), UBig/IBig * for lengths 0..3, squaring shortcut, cubic, pow with one-word bases and exponents 0..7; every result compared with a ripple-carry / schoolbook oracle and checked canonical.",
-        "note": TRUST + "Outside: operands > 4 words with free contents, Toom-3 and the production thresholds (24/192 words), full-width products beyond schoolbook 3x2.",
+        "text": BMC + 'add/sub word kernels fully symbolic on 4 words (64- and 32-bit words); UBig/IBig + and - through the real operator layer for every operand length pair 0..3 words (plus the mixed-ownership forms for lengths 3/4), every sign pair and ownership form, mixed UBig/IBig forms, UBig underflow panics in every form; multiplication with ONE operand fully symbolic and the other a sparse literal of a class (3, 5, 2^63+1, 2^32, [3,1], [0,2^32], [1,2^63], [13,1], [7,0,5], [3,0,1], [0,0,128]): word kernels, schoolbook up to 4x3, Karatsuba n=3 (thorough 4), mul_dword_in_place, UBig/IBig/mixed * in every form with 0..3 symbolic words on either side; symbolic x symbolic products for one-word structured operands; x*x / sqr / cubic on one structured word; pow for bases p*2^t (p < 2^4) and exponents 0..5; every result compared with a ripple-carry / schoolbook oracle and checked canonical.',
+        "note": TRUST + 'Outside: symbolic x symbolic products beyond one word and dense literal multipliers (measured: the SAT back end does not finish), operands > 4 words, Toom-3 and the production thresholds (24/192 words).',
     },
     "C02": {
         "text": BMC + "Defining identity a = q*b + r with the range/sign of r (never a second divider): single/double-word division kernels with literal divisors over all (2 words) / structured (3-4 words) dividends, power-of-two divisors 2^k and 2^(W+k) with symbolic k over all dividends; UBig / % div_rem div_euclid rem_euclid div_rem_euclid div_rem_assign /= %= is_multiple_of for structured operands of 0..3 (thorough 4) words; IBig truncating forms for every sign pair; IBig Euclidean forms for |a|,|b| < 2^10 in the inline-only regime; division by zero panics in every form; ConstDivisor (10 literal divisors of every class) agrees with plain division.",
@@ -28,8 +28,8 @@ CLAIMS = {
         "note": TRUST + "Outside: TryFrom<f32/f64> for UBig/IBig (data-dependent shift amounts make CBMC run out of memory; a defect there - 1.5f32 converts to 1 - was observed natively and is documented, not decided), FBig/RBig conversions.",
     },
     "C07": {
-        "text": BMC + "from_le/be_bytes (unsigned and two's complement) for every byte string of the listed lengths 0..25; to_le/be_bytes of integers of 0..3 (thorough 4) words: exact bytes, minimal length (unsigned), two's complement meaning and round trip (signed); from_str_radix / from_str_with_radix_prefix on EVERY ASCII string of length 0..4 (thorough 5) for radices 2,3,7,8,10,16,32,36 against a reference parser (same number or both reject); power-of-two radices across the word boundary; Display of in_radix(r) for every value below 2^16 (thorough 2^64, 2^128).",
-        "note": TRUST + "Outside: strings that consist of underscores only (accepted as 0 by dashu; whether that is malformed is a judgement the property text does not settle), formatter flags (width/fill/+/#/0), to/from_chunks, inputs beyond the stated lengths, the 256-word chunk and divide-and-conquer converters.",
+        "text": BMC + "from_le_bytes / from_be_bytes, unsigned and two's complement, for EVERY byte string of 11 lengths between 0 and 25 (value and canonical layout against an explicit two's complement oracle); to_le_bytes / to_be_bytes of non-negative integers of 3 words (thorough 4) whose top word is one of 8 literals and whose lower words are symbolic: exact bytes, minimal length, round trip.",
+        "note": TRUST + 'Outside (probed, undecided - DESIGN 0.2 (m)): from_str_radix and every other parser, Display / in_radix / formatter flags, to_*_bytes of values of at most two words and of negative values (the byte count is data dependent: symbolic-size Vec), chunks; the -2^128 encoding defect named in the property text was observed natively only.',
     },
     "C09": {
         "text": BMC + "shift kernels fully symbolic (4 words, symbolic amount); UBig & | ^ for lengths 0..3 (thorough 4) in every form; IBig & | ^ ! against an explicit two's complement oracle: non-negative operands to 3 words, negative operands to 2 words (inline-only regime); << and >> by 10 amounts around the word multiples for lengths 0..3, IBig >> as floor division for negative values (<= 2 words quick, 3 words thorough); bit(n) with symbolic n, bit_len, trailing_zeros/ones, count_ones/zeros, is_power_of_two for every sign and length 0..3 (thorough 4); set_bit/clear_bit/split_bits/clear_high_bits at 11 positions; next_power_of_two; UBig::ones(n).",
@@ -40,12 +40,12 @@ CLAIMS = {
         "note": TRUST + "Outside: FBig::trunc/floor/ceil/round/fract/to_int/with_precision and the RBig rounding functions (float and rational operations need an integer model; base-10 digit splitting divides by a symbolic power, which was probed and does not finish - DESIGN 4).",
     },
     "C12": {
-        "text": BMC + "dashu-base gcd/gcd_ext for every pair of u8/u16 (thorough u32): common divisor and Bezout identity; sqrt_rem/cbrt_rem for every u8/u16/u32 (thorough u64); the no_std table-driven log2_bounds for EVERY u8 and u16 against exact floor/ceil(2^40 log2 n) tables (generated by integer arithmetic), u32/u64 through the 16-bit-prefix reduction; next_up/next_down for every finite f32; UBig nth_root on values below 2^n (incl. 0), sqrt/sqrt_rem below 2^16 (thorough 2^63), IBig::cbrt of negatives, ilog with power-of-two bases for 1..3 words, gcd/gcd_ext and remove on small operands, and every documented panic.",
-        "note": TRUST + "Outside: Lehmer gcd, Karatsuba square root and Newton nth_root on multi-word operands, ilog with non-power-of-two bases, the std (libm) log2 estimator, FBig/RBig log2_bounds.",
+        "text": BMC + 'dashu-base gcd/gcd_ext for every pair of u8 (thorough u16): common divisor and Bezout identity; sqrt_rem/cbrt_rem for every u8/u16 (thorough u32); the no_std table-driven log2_bounds for every u8 and for windows of u16 and of the u32 prefix reduction against exact floor/ceil(2^40 log2 n) tables (quick: 5+3 windows of 1024/512 prefixes, thorough: all 64+64), next_up/next_down for every finite f32; UBig/IBig nth_root(n) of 0 for every n, IBig::cbrt on literals of both signs, ilog with power-of-two bases for 1..3 words, remove(2^k) on small values, and every documented panic (gcd(0,0), zeroth / even-negative roots, ilog domain).',
+        "note": TRUST + 'Outside (probed, undecided): Lehmer gcd and gcd_ext on multi-word operands, integer square roots beyond u16/u32 primitives, Newton nth_root with symbolic radicands, ilog with other bases, the std (libm) log2 estimator, FBig/RBig log2_bounds.',
     },
     "C13": {
-        "text": BMC + "Rings with 8 literal moduli (single word with and without shift, double word with and without shift, 3-word with and without shift): + - * neg dbl sqr pow(0..5) and the assignment/by-reference forms on elements +-p (p < 2^12): residue equals the integer result reduced mod m (and is therefore in [0,m)); reduce() of every |a| < 2^32 for 6 small moduli; inv() in 6 small rings for every residue: Some(x) with a*x = 1 exactly when gcd(a,m) = 1; mixing two ConstDivisor instances panics.",
-        "note": TRUST + "Outside: symbolic moduli, multi-word exponents, residues with unconstrained multi-word contents.",
+        "text": BMC + 'Rings with literal moduli (single word with and without normalisation shift, double word): + - neg dbl (and * sqr pow where the calibration showed them decidable) on elements +-p (p < 2^12 or 2^6): the residue equals the integer result reduced mod m; reduce() of every |a| < 2^32 for small moduli; mixing two ConstDivisor instances panics.',
+        "note": TRUST + 'Outside (probed, undecided): 3-word moduli, inv(), multiplication in double-word rings, symbolic moduli, multi-word exponents.',
     },
     "C14": {
         "text": BMC + "NumOrd in both directions between UBig/IBig of 0..3 words (32-bit words: 0..5) and every value of the 12 primitive integer types, and between UBig and IBig; NumHash byte streams of UBig/IBig and of the primitive u64/i64 (thorough u128/i128) of the same value are identical; AbsOrd/AbsEq mixed forms (with C05).",
@@ -56,8 +56,8 @@ CLAIMS = {
         "note": TRUST + "Outside: FBig operator vs Context method agreement and rational operator forms (need the integer model, DESIGN 4).",
     },
     "C16": {
-        "text": BMC + "Every harness of every property runs with Kani's panic, overflow, bounds, unwrap and unwinding assertions on, so absence of undocumented panics and termination within the derived loop bound is decided for each operation harnessed; documented panics are checked as 'always panics' (should_panic harness whose return point is unreachable): UBig underflow, division by zero in every form, gcd(0,0), zeroth/even-negative roots, ilog domain, mixing rings, exhausting the bump allocator; parsers return Err on every ASCII string of length <= 4 (thorough 5); IBig op primitive forms for six primitive types.",
-        "note": TRUST + "Known finding (printed, not an alarm): negative IBig % unsigned primitive panics. Outside: float operations (ln of a negative number etc.), operations not harnessed anywhere.",
+        "text": BMC + "Every harness of every property runs with Kani's panic, overflow, bounds, unwrap and unwinding assertions on, so absence of undocumented panics and termination within the derived loop bound is decided for each operation harnessed; documented panics are checked as 'always panics' (should_panic harness whose return point is unreachable): UBig underflow in every form, division by zero in every form, gcd(0,0), zeroth/even-negative roots, ilog domain, mixing rings, exhausting the bump allocator; IBig op primitive forms (+ - * / %) for six primitive types.",
+        "note": TRUST + 'Known finding (printed, not an alarm): negative IBig % unsigned primitive panics. Outside: parsers (probed, undecided), float operations (ln of a negative number etc.), operations not harnessed anywhere.',
     },
     "C17": {
         "text": BMC + "Inductive step over the representation invariant: pre-state = any Repr of 0..4 words satisfying the invariant with default / tight / over-compact capacity; step = one Buffer operation (14 kinds) followed by from_buffer, clone, clone_from between every shape and capacity pair, every arithmetic/bit operator harness of C01/C02/C09, byte import/export, static words; post = invariant (inline iff <= 2 words, no leading zero, capacity within the compactness bound, zero positive) and all of CBMC's pointer checks (in-bounds, live object, no double free); the bump allocator's slices are disjoint and in bounds.",
